@@ -126,6 +126,7 @@ func (r *Reliable) initiate(req bool) {
 		}
 	}
 
+	verifhook.At("tubes.Reliable.initiate.beforeStart")
 	r.l.Lock()
 	if r.tubeState != initiated {
 		r.l.Unlock()
